@@ -1134,11 +1134,50 @@ impl Builder {
             }
             self.rng.shuffle(&mut attrs);
         }
+        // now and then `override` among the attributes (a getter that implements an interface function)
+        if !is_fn && !file_level && self.rng.chance(1, 8) {
+            let at = self.rng.below(attrs.len() + 1);
+            attrs.insert(at, "override");
+        }
         let underscore = self.rng.chance(1, 3);
-        let name = if underscore { self.fresh("_sv") } else { self.fresh("sv") };
+        // `$` is a letter of identifiers: `_$slot`, `$slot`
+        let name = match (underscore, self.rng.chance(1, 8)) {
+            (true, false) => self.fresh("_sv"),
+            (false, false) => self.fresh("sv"),
+            (true, true) => self.fresh("_$sv"),
+            (false, true) => self.fresh("$sv"),
+        };
         let needs_init = attrs.contains(&"constant");
         let init = if needs_init || (!is_fn && self.rng.chance(1, 3)) {
-            let e = self.expr(2);
+            let e = if self.rng.chance(1, 4) {
+                // values only known at deployment
+                match self.rng.below(6) {
+                    0 => self.msg_sender(),
+                    1 => {
+                        let b0 = self.var("block");
+                        self.member(b0, "timestamp")
+                    }
+                    2 => {
+                        let t = self.ex(E::This);
+                        self.cast("address", t)
+                    }
+                    3 => {
+                        let c = self.var("Child");
+                        let call = self.call(c, vec![]);
+                        self.ex(E::Un(UnOp::New, Box::new(call)))
+                    }
+                    4 => {
+                        let t = self.var("tx");
+                        self.member(t, "origin")
+                    }
+                    _ => {
+                        let m = self.var("msg");
+                        self.member(m, "value")
+                    }
+                }
+            } else {
+                self.expr(2)
+            };
             Some(self.fin(e))
         } else {
             None
